@@ -51,6 +51,9 @@ int write_wdc(Memory *memory, FILE *out)
         length = 0;
         address = -1;
       }
+
+      // Nothing was assembled into this page: go on with the next one.
+      if (!memory->in_use(n)) { n |= memory->get_page_size() - 1; }
     }
 
     // A full block only starts a new one: the byte at n still has to be
